@@ -283,9 +283,11 @@ func (b *Builder) call(x *ssa.Call) *Term {
 				}
 			}
 		}
-		if bi.Name() == "len" && len(args) == 1 && args[0].Op == "list" {
-			// the length of a reconstructed element list is a constant
-			return Const(constant.MakeInt64(int64(len(args[0].Args))), types.Typ[types.Int])
+		if bi.Name() == "len" && len(args) == 1 {
+			// the length of a reconstructed element list (or of appends to one) is a constant
+			if n, ok := ConstLen(args[0]); ok {
+				return Const(constant.MakeInt64(n), types.Typ[types.Int])
+			}
 		}
 		return &Term{Op: OBuiltin, Str: bi.Name(), Args: args, Pos: x.Pos()}
 	}
